@@ -20,3 +20,6 @@ import SoxrModel.Properties.C17
 #print axioms Soxr.C17.vr_init_once_partial
 #print axioms Soxr.C17.vr_init_twice_reachable
 #print axioms Soxr.C17.vr_use_during_init_reachable
+#print axioms Soxr.C17.table_use_requires_role
+#print axioms Soxr.C17.reader_use_no_rebuild
+#print axioms Soxr.C17.writer_use_exclusive
